@@ -208,6 +208,25 @@ def check_transform_case(ctx, name, l, u, xs, tag, lean_lines, lean_recs):
         if not (yl[i] == yl[i]) or yl[i] < ll[i] or yl[i] > ul[i]:
             ctx.fail(f"bounds:{name}.transform", f"{name}({ll[i]}, {ul[i]}).transform({xs[i]!r}) = {yl[i]!r} is outside "
                      f"[{ll[i]}, {ul[i]}]", replay(i))
+    # the public bound checks: check(v) on constrained values, check_raw(x) on raw values
+    if not tens:
+        ctx.case(f"T:{name}:{tag}:check")
+        inside = [v for v in yl if v == v]
+        probes = []
+        if math.isfinite(ll[0]):
+            probes.append(ll[0] - max(1e-9, 1e-9 * abs(ll[0])))
+        if math.isfinite(ul[0]):
+            probes.append(ul[0] + max(1e-9, 1e-9 * abs(ul[0])))
+        if inside and not con.check(torch.tensor(inside, dtype=torch.float64)):
+            ctx.fail(f"check:{name}", f"{name}({ll[0]}, {ul[0]}).check(v) is False for values produced by its own transform "
+                     f"(e.g. {inside[len(inside) // 2]!r})", {"kind": "check", "class": name, "l": ll[0], "u": ul[0], "v": inside[len(inside) // 2]})
+        for pv in probes:
+            if con.check(torch.tensor([pv], dtype=torch.float64)):
+                ctx.fail(f"check:{name}", f"{name}({ll[0]}, {ul[0]}).check({pv!r}) is True for an out-of-bounds value",
+                         {"kind": "check", "class": name, "l": ll[0], "u": ul[0], "v": pv})
+        if not con.check_raw(x):
+            ctx.fail(f"check:{name}", f"{name}({ll[0]}, {ul[0]}).check_raw(x) is False for finite raw values",
+                     {"kind": "check", "class": name, "l": ll[0], "u": ul[0]})
     # monotone on sorted inputs (only meaningful for shared bounds)
     if not tens:
         order = sorted(range(n), key=lambda i: xs[i])
@@ -477,7 +496,7 @@ def test_parameter(ctx, rng, cname, module, pname, lean_lines, lean_recs):
                                                            dtype=torch.float64).reshape(lo_t.shape)).expand(shape).clone()
             else:
                 val = interior_values(rng, kind, l, u, shape)
-            for form in ("tensor", "float"):
+            for form in (("tensor",) if tensor_bounds else ("tensor", "float")):
                 if form == "float":
                     v_in = float(val.flatten()[0]) if val.numel() else None
                     if v_in is None:
@@ -634,14 +653,15 @@ def sweep_modules(ctx):
             no_params.append(f"{modname}.{n}")
             continue
         tested.append(f"{modname}.{n}")
-        for pn, _, _ in triples:
-            # a fresh instance per parameter so that histories do not interact
-            mm, _ = construct(cls)
-            try:
-                test_parameter(ctx, rng, n, mm, pn, lean_lines, lean_recs)
-            except Exception as e:
-                import traceback
-                ctx.broke("correspondence", f"module:{n}.{pn}", traceback.format_exc())
+        for rnd in range(1 if ctx.quick else 4):
+            for pn, _, _ in triples:
+                # a fresh instance per parameter so that histories do not interact
+                mm, _ = construct(cls)
+                try:
+                    test_parameter(ctx, rng, n, mm, pn, lean_lines, lean_recs)
+                except Exception as e:
+                    import traceback
+                    ctx.broke("correspondence", f"module:{n}.{pn}", traceback.format_exc())
     ctx.notes["modules_tested"] = tested
     ctx.notes["modules_skipped"] = skipped
     ctx.notes["modules_without_constrained_parameters"] = no_params
@@ -874,6 +894,13 @@ def sweep_priors(ctx):
                     ctx.fail(f"prior:LKJPrior/documented-density/n>=3" if n >= 3 else "prior:LKJPrior/documented-density/n=2",
                              f"LKJPrior(n={n}, eta={eta}): log_prob(S1) - log_prob(S0) = {got!r} but the documented density "
                              f"|Sigma|^(eta-1) gives {want!r}", rp)
+            # identity matrix: Cholesky factor and Jacobian are trivial, so both priors must agree there
+            eye = torch.eye(n, dtype=torch.float64)
+            ctx.case(f"P:LKJPrior:n{n}:identity")
+            li, lc = pr.log_prob(eye).item(), P.LKJCholeskyFactorPrior(n, eta).log_prob(eye).item()
+            if not abs(li - lc) <= 1e-10 * (1 + abs(lc)):
+                ctx.fail("prior:LKJPrior/identity", f"LKJPrior(n={n}, eta={eta}).log_prob(I) = {li!r} but the LKJ-Cholesky density at "
+                         f"L = I is {lc!r}", {"kind": "prior", "prior": "LKJPrior", "params": [n, eta], "S": "identity"})
             # Cholesky-factor prior against the LKJ-Cholesky density  prod_i L_ii^(n - i + 2 eta - 2)
             prc = P.LKJCholeskyFactorPrior(n, eta)
             covered.add("LKJCholeskyFactorPrior")
